@@ -104,6 +104,9 @@ def gen_tree(rng, C, depth=0, pool=None):
         return nn.ModuleList(kids)
     # incl. siblings whose names extend each other as strings without being parent and child (proj / proj_drop)
     base = ['fc', 'conv', 'head', 'proj', 'attention', 'dense', 'out', 'l0', 'x']
+    if rng.random() < 0.3:
+        # attribute names that contain the prefixes model wrappers add ('module.', '_orig_mod.') without being wrappers
+        base = ['adapter_module', 'module', 'fc', 'enc_orig_mod', 'conv', 'head', 'submodule', 'x', 'proj']
     if rng.random() < 0.4:
         base = ['fc', 'fc_out', 'proj', 'proj_drop', 'conv', 'conv_bn', 'head', 'head2', 'x', 'x1']
         names = []
@@ -125,6 +128,9 @@ def gen_tree(rng, C, depth=0, pool=None):
 
 
 def gen_patterns(rng):
+    if rng.random() < 0.15:
+        return rng.sample(['adapter_module', r'module\.', r'^module', r'_orig_mod\.', r'_module\.fc', 'submodule', r'module\.\d'],
+                          rng.choice([1, 2]))
     atoms = ['fc', 'conv', 'Linear', 'linear', '^0', '0$', r'\.1', 'proj|head', 'Conv2d', '^$', 'a', 'My', 'x.y',
              'Parallel', 'column', r'^\w+\.\d$', 'dense', 'l0', 'Sub$', '.']
     if rng.random() < 0.25:
